@@ -65,6 +65,17 @@ FLOWS: list[dict[str, Any]] = [
         ),
     },
     {
+        "name": "RND->CTL(+10E0)",  # a heating device that also casts its device info (OEM code 00) to be ratified
+        "resp": {"01:220768": {"class": "CTL"}},
+        "supp": {"34:259472": {"class": "RND", "faked": True}},
+        "flow": (
+            " I --- 34:259472 --:------ 34:259472 1FC9 030 0023098BF5900030C98BF5900000088BF5900010E08BF590001FC98BF590",
+            " W --- 01:220768 34:259472 --:------ 1FC9 006 022309075E60",
+            " I --- 34:259472 01:220768 --:------ 1FC9 006 0223098BF590",
+            " I --- 34:259472 63:262142 --:------ 10E0 038 000001C8380F0100F1FF070B07E6030507E15438375246323032350000000000000000000000",
+        ),
+    },
+    {
         "name": "DHW->CTL",
         "resp": {"01:145038": {"class": "CTL"}},
         "supp": {"07:045960": {"class": "DHW", "faked": True}},
